@@ -57,6 +57,12 @@ func runMutants(r *core.Run, verif, repo, prop string) {
 		}(i, f)
 	}
 	wg.Wait()
+	// mechanical whole-repository rewrites that change no behaviour: every local variable and
+	// parameter renamed; every unexported function and method (that implements no interface
+	// method) renamed. The check must stay quiet on both.
+	for _, mode := range []string{"locals", "funcs"} {
+		results = append(results, runStress(self, verif, repo, prop, mode))
+	}
 	detected := 0
 	var samples []any
 	for _, res := range results {
@@ -71,10 +77,10 @@ func runMutants(r *core.Run, verif, repo, prop string) {
 		}
 		samples = append(samples, res)
 	}
-	r.Analysed["mutants_tried"] = len(files)
+	r.Analysed["mutants_tried"] = len(results)
 	r.Analysed["mutants_detected"] = detected
 	r.Extra("mutant_self_test", samples)
-	r.Note("mutant self-test: %d/%d recorded source mutations of %s detected (each applied to a scratch copy, quick check re-run in a subprocess)", detected, len(files), prop)
+	r.Note("mutant self-test: %d/%d recorded source mutations of %s detected (each applied to a scratch copy, quick check re-run in a subprocess)", detected, len(results), prop)
 }
 
 func runOneMutant(self, verif, repo, prop, patchFile string) mutantResult {
@@ -162,6 +168,69 @@ func runOneMutant(self, verif, repo, prop, patchFile string) mutantResult {
 			firstReport = firstReport[:300]
 		}
 		res.Report = firstReport
+	}
+	return res
+}
+
+// runStress applies one of the stress tool's whole-repository renamings to a
+// scratch copy and expects the quick check to be silent on it.
+func runStress(self, verif, repo, prop, mode string) mutantResult {
+	res := mutantResult{File: "stress:" + mode, Expect: "SILENT"}
+	tool := filepath.Join(verif, "bin", "stress")
+	if _, err := os.Stat(tool); err != nil {
+		res.Problem = "bin/stress is missing (run ./setup.sh)"
+		return res
+	}
+	tmp, err := os.MkdirTemp("", "j5stress-")
+	if err != nil {
+		res.Problem = err.Error()
+		return res
+	}
+	defer os.RemoveAll(tmp)
+	dst := filepath.Join(tmp, "repo")
+	if out, err := exec.Command("rsync", "-a", "--exclude", ".git", strings.TrimSuffix(repo, "/")+"/", dst+"/").CombinedOutput(); err != nil {
+		res.Problem = "copy failed: " + string(out)
+		return res
+	}
+	if out, err := exec.Command(tool, "-repo", dst, "-mode", mode).CombinedOutput(); err != nil {
+		res.Problem = "stress tool failed: " + strings.TrimSpace(string(out))
+		return res
+	}
+	c := exec.Command(self, "-prop", prop, "-tier", "quick", "-repo", dst, "-verif", verif, "-out", filepath.Join(tmp, "ev.json"))
+	c.Env = append(os.Environ(), "J5CHECK_VIOLATION_DIR="+filepath.Join(tmp, "violations"))
+	out, err := c.CombinedOutput()
+	text := strings.ReplaceAll(string(out), dst+"/", "")
+	exit := 0
+	if ee, ok := err.(*exec.ExitError); ok {
+		exit = ee.ExitCode()
+	} else if err != nil {
+		res.Problem = err.Error()
+		return res
+	}
+	switch {
+	case strings.Contains(text, "cannot load"):
+		res.Problem = "the renamed tree does not type-check (stress tool defect)"
+	case exit == 0 && !strings.Contains(text, "\nVIOLATION ") && !strings.HasPrefix(text, "VIOLATION "):
+		res.Detected = true
+		res.Report = "no alarm with every " + map[string]string{"locals": "local variable and parameter", "funcs": "unexported function and method"}[mode] + " renamed"
+	default:
+		first := ""
+		lines := strings.Split(text, "\n")
+		for i, l := range lines {
+			if strings.HasPrefix(l, "VIOLATION ") && i > 0 {
+				first = lines[i-1]
+				break
+			}
+		}
+		if first == "" {
+			for _, l := range lines {
+				if strings.HasPrefix(l, "check failure") {
+					first = l
+					break
+				}
+			}
+		}
+		res.Problem = "FALSE ALARM after a pure renaming (" + mode + "): " + first
 	}
 	return res
 }
